@@ -104,7 +104,9 @@ def layout(w, defs, fmt_json, main_mode):
 
 
 def enforcer(P, w, defs, absolute):
-    dirs = ['d1', 'd2', 'd3']
+    # d0 and d3 are configured but missing (one before, one after the
+    # existing directories)
+    dirs = ['d0', 'd1', 'd2', 'd3']
     if absolute:
         dirs = [w.path(d) for d in dirs]
     conf = world.new_conf(w.root, policy_dirs=dirs)
